@@ -350,6 +350,12 @@ Finished == pc = "Done"
 LoopInv == (pc \in {"Loop", "Ret"}) =>
              /\ 0 <= lo /\ lo < hi /\ hi <= Len(kvr.t) - 1
              /\ T(kvr, lo) <= uq /\ uq < T(kvr, hi)
+\* link to the unbounded TLAPS proof (spec/FindSpanProof.tla): the proved inductive invariant, read through the
+\* refinement mapping below (Ret still belongs to the loop, Fin and Done are past it), holds in every reachable state
+ProvedKV == INSTANCE FindSpanProof WITH len <- Len(kvr.t), p <- kvr.p,
+                                        kv <- [i \in 0 .. (Len(kvr.t) - 1) |-> T(kvr, i)], u <- uq,
+                                        pc <- (IF pc = "Start" THEN "Start" ELSE IF pc \in {"Loop", "Ret"} THEN "Loop" ELSE "Done")
+AsProved == (Family = "findspan" /\ pc # "Pick" /\ ~BuggyCmp) => ProvedKV!Inv
 \* the binary search returns the declarative span, which is a non-empty span with p <= i < len-1-p
 FindSpanOK == (Finished /\ Family = "findspan") =>
                 /\ out.span = SpanDecl(kvr, uq)
